@@ -1,7 +1,7 @@
 (* Entry point of the extracted runner: [run fn arg].  The Python side finds function
    numbers by parsing the "(* FN name *)" comments below. *)
 From Coq Require Import ZArith List.
-From PyCraft Require Import Base.Res Base.Sx Model.VarInt Model.Versions Model.Position Model.SignedHex Model.Sha1.
+From PyCraft Require Import Base.Res Base.Sx Model.VarInt Model.Versions Model.Position Model.SignedHex Model.Sha1 Model.Tables Model.FieldTypes Model.Nbt.
 Import ListNotations.
 Open Scope Z_scope.
 
@@ -25,6 +25,58 @@ Definition rel_in (rel_ids : list Z) (vid : Z) : bool := memZ vid rel_ids.
 (* ---- positions ---- *)
 Definition of_triple (t : Z * Z * Z) : sx := let '(x, y, z) := t in L [I x; I y; I z].
 Definition of_quad (t : Z * Z * Z * Z) : sx := let '(x, y, z, s) := t in L [I x; I y; I z; I s].
+
+(* ---- field codec ---- *)
+(* ftype: I tag for nullary; (15 base bits) TFixed; (21 len elem) TArray; (22 c) TCustom *)
+Fixpoint sx_ftype (fuel : nat) (s : sx) : ftype :=
+  match fuel with
+  | O => TBool
+  | S f =>
+    match s with
+    | I 0 => TBool | I 1 => TUByte | I 2 => TByte | I 3 => TShort | I 4 => TUShort | I 5 => TInt | I 6 => TLong
+    | I 7 => TULong | I 8 => TFloat | I 9 => TDouble | I 10 => TVarInt | I 11 => TVarLong | I 12 => TString
+    | I 13 => TUUID | I 14 => TAngle | I 16 => TShortBytes | I 17 => TVarBytes | I 18 => TTrailing
+    | I 19 => TPosition | I 20 => TNBT
+    | L [I 15; b; I n] => TFixed (sx_ftype f b) n
+    | L [I 21; l; e] => TArray (sx_ftype f l) (sx_ftype f e)
+    | L [I 22; I c] => TCustom c
+    | _ => TBool
+    end
+  end.
+Fixpoint sx_value (fuel : nat) (s : sx) : value :=
+  match fuel with
+  | O => VInt 0
+  | S f =>
+    match s with
+    | L [I 0; I b] => VBool (negb (b =? 0))
+    | L [I 1; I z] => VInt z
+    | L [I 2; L l] => VStr (map sx_z l)
+    | L [I 3; L l] => VBytes (map sx_z l)
+    | L [I 4; I n; I k] => VQ n k
+    | L [I 5; L l] => VList (map (sx_value f) l)
+    | L [I 6; L l] => VTup (map (sx_value f) l)
+    | _ => VInt 0
+    end
+  end.
+Fixpoint of_value (fuel : nat) (v : value) : sx :=
+  match fuel with
+  | O => I 0
+  | S f =>
+    match v with
+    | VBool b => L [I 0; of_bool b]
+    | VInt z => L [I 1; I z]
+    | VStr l => L [I 2; of_zs l]
+    | VBytes l => L [I 3; of_zs l]
+    | VQ n k => L [I 4; I n; I k]
+    | VList l => L [I 5; L (map (of_value f) l)]
+    | VTup l => L [I 6; L (map (of_value f) l)]
+    end
+  end.
+Definition sx_cctx (s : sx) : cctx :=
+  {| c_pos_zy := sx_bool (sx_nth s 0); c_rec_new := sx_bool (sx_nth s 1); c_pitch_float := sx_bool (sx_nth s 2) |}.
+Definition sx_defn (s : sx) : defn := map (fun t => (0, sx_ftype 12 t)) (sx_list s).
+Definition of_vrest (p : value * list Z) : sx := L [of_value 12 (fst p); of_zs (snd p)].
+Definition of_vsrest (p : list value * list Z) : sx := L [L (map (of_value 12) (fst p)); of_zs (snd p)].
 
 Definition run (fn : Z) (a : sx) : sx :=
   match fn with
@@ -66,5 +118,15 @@ Definition run (fn : Z) (a : sx) : sx :=
       of_zs (mc_hex (sx_zs (sx_nth a 0)))
   | 32 => (* FN sha1 : (bytes) *)
       of_zs (sha1 (sx_zs (sx_nth a 0)))
+  | 40 => (* FN enc : (cctx ftype value) *)
+      of_res of_zs (enc (sx_cctx (sx_nth a 0)) (sx_ftype 12 (sx_nth a 1)) (sx_value 12 (sx_nth a 2)))
+  | 41 => (* FN dec : (cctx ftype bytes) *)
+      of_res of_vrest (dec (sx_cctx (sx_nth a 0)) nbt_split (sx_ftype 12 (sx_nth a 1)) (sx_zs (sx_nth a 2)))
+  | 42 => (* FN encode_fields : (cctx defn values) *)
+      of_res of_zs (encode_fields (sx_cctx (sx_nth a 0)) (sx_defn (sx_nth a 1)) (map (sx_value 12) (sx_list (sx_nth a 2))))
+  | 43 => (* FN decode_fields : (cctx defn bytes) *)
+      of_res of_vsrest (decode_fields (sx_cctx (sx_nth a 0)) nbt_split (sx_defn (sx_nth a 1)) (sx_zs (sx_nth a 2)))
+  | 44 => (* FN nbt_split : (bytes) *)
+      of_opt (fun p => L [of_zs (fst p); of_zs (snd p)]) (nbt_split (sx_zs (sx_nth a 0)))
   | _ => L [I 99]
   end.
